@@ -33,7 +33,9 @@ def w_delims(d):
 
 def w_value(k, v):
     if k == 'ctx':
-        return w_opt(v, lambda l: w_list(l, w_str))
+        # UNKNOWN_FALLBACK is not a specials sequence: it asks make_ctx for a database with an unknown-specials
+        # fallback specification (which the tokenizer never consults: the model's context is the list of sequences)
+        return w_opt(v, lambda l: w_list([x for x in l if x != UNKNOWN_FALLBACK], w_str))
     if k == 'math_mode_delimiter':
         return w_opt(v, w_str)
     if k.startswith('latex_'):
@@ -112,6 +114,9 @@ def apply_delta(fields, d, s):
 _ctx_cache = {}
 
 
+UNKNOWN_FALLBACK = '\x00unknown-fallback'
+
+
 def make_ctx(specials):
     """A LatexContextDb whose specials, in lookup order, are the given strings."""
     if specials is None:
@@ -121,6 +126,12 @@ def make_ctx(specials):
         from pylatexenc.macrospec import LatexContextDb, SpecialsSpec
         db = LatexContextDb()
         for i, sc in enumerate(specials):
+            if sc == UNKNOWN_FALLBACK:
+                from pylatexenc.macrospec import MacroSpec, EnvironmentSpec
+                db.set_unknown_specials_spec(SpecialsSpec(''))
+                db.set_unknown_macro_spec(MacroSpec(''))
+                db.set_unknown_environment_spec(EnvironmentSpec(''))
+                continue
             db.add_context_category('c%d' % i, specials=[SpecialsSpec(sc)])
         db.freeze()
         _ctx_cache[key] = db
